@@ -310,6 +310,23 @@ def check_lock_selection(model, rep):
     rep.ob('R18.1', 'cache:_lock_file_fallback', fb.where() if fb else m.relpath + ':1', ok, 'fallback exists', statement='fallback-exists')
 
 
+def arguments_enter_key(w):
+    """(every canonical positional argument is fed to the hasher, every keyword enters with name AND value in sorted order) for the wrapper of
+    cache.function - whatever the loop and comprehension variables are called."""
+    loops = [s for s in w.body if isinstance(s, ast.For)]
+    pos_ok = any(src(l.iter) == 'args' and any(method_name(c) == 'update' and 'nutils_hash(' + src(l.target) + ')' in src(c) for c in calls_in(l)) for l in loops)
+    kw_ok = False
+    for l in loops:
+        it = resolved(w.node, l.iter)
+        if isinstance(it, ast.Call) and method_name(it) == 'sorted' and it.args and isinstance(resolved(w.node, it.args[0]), (ast.GeneratorExp, ast.ListComp)):
+            g = resolved(w.node, it.args[0])
+            if src(g.generators[0].iter) == 'kwargs.items()':
+                names = [src(e) for e in (g.generators[0].target.elts if isinstance(g.generators[0].target, ast.Tuple) else [])]
+                if len(names) == 2 and names[0] + '.encode()' in src(g.elt) and f'nutils_hash({names[1]})' in src(g.elt) and any(method_name(c) == 'update' for c in calls_in(l)):
+                    kw_ok = True
+    return pos_ok, kw_ok
+
+
 def check_key(model, rep):
     f = model.func('cache:function')
     w = model.func('cache:function.<locals>.wrapper')
@@ -326,18 +343,8 @@ def check_key(model, rep):
     hdef = [s for s in w.body if isinstance(s, ast.Assign) and isinstance(s.value, ast.Call) and src(s.value.func) == 'hashlib.sha1']
     ok = len(hdef) == 1 and [src(a) for a in hdef[0].value.args] == ['func_key']
     rep.ob('R18.4', w.key, w.where(), ok, 'the hasher starts from func_key', statement='key-starts-func-key')
-    loops = [s for s in w.body if isinstance(s, ast.For)]
-    pos_ok = any(src(l.iter) == 'args' and any(method_name(c) == 'update' and 'nutils_hash(' + src(l.target) + ')' in src(c) for c in calls_in(l)) for l in loops)
+    pos_ok, kw_ok = arguments_enter_key(w)
     rep.ob('R18.4', w.key, w.where(), pos_ok, 'every positional argument is hashed' if pos_ok else 'not every canonical positional argument enters the key', statement='key-positional')
-    kw_ok = False
-    for l in loops:
-        it = l.iter
-        if isinstance(it, ast.Call) and method_name(it) == 'sorted' and it.args and isinstance(it.args[0], ast.GeneratorExp):
-            g = it.args[0]
-            if src(g.generators[0].iter) == 'kwargs.items()':
-                names = [src(e) for e in (g.generators[0].target.elts if isinstance(g.generators[0].target, ast.Tuple) else [])]
-                if len(names) == 2 and names[0] + '.encode()' in src(g.elt) and f'nutils_hash({names[1]})' in src(g.elt) and any(method_name(c) == 'update' for c in calls_in(l)):
-                    kw_ok = True
     rep.ob('R18.4', w.key, w.where(), kw_ok, 'keyword names and values are hashed in sorted order' if kw_ok else
            'keyword arguments do not enter the key with name and value, order-independently', statement='key-keywords')
     # the file that is opened is <cache dir> / <hex digest of the hasher>, whatever the intermediate values are called
